@@ -471,6 +471,81 @@ def sec_discrete_select(ck, Ks):
         ck.prove(f"{name}.sample_logprob_consistent@{tag}", asm, gc, replay=judge_replay(tr, S, it.uf_apps, jcons), margin_goal=mg(tame, gc))
 
 
+# ===================================================================== product laws: the components are drawn independently
+def _rand_atoms(t, acc=None, seen=None):
+    """applications of stubbed samplers (RAND_*) inside a term: {(declaration name, term id): (declaration name, key term)}"""
+    acc = {} if acc is None else acc
+    seen = set() if seen is None else seen
+    stack = [t]
+    while stack:
+        x = stack.pop()
+        if not isinstance(x, z3.ExprRef) or x.get_id() in seen:
+            continue
+        seen.add(x.get_id())
+        if z3.is_app(x):
+            d = x.decl().name()
+            if d.startswith("RAND_") and x.num_args() >= 1:
+                acc[(d, x.get_id())] = (d, x.arg(0))
+            stack.extend(x.children())
+    return acc
+
+
+def sec_independent_components(ck):
+    """`samples follow the stated density` for a product law needs the component draws to be independent.  Under the PRNG contract (draws of distinct keys, and the
+    elements of one draw, are independent; the same sampler applied to the same key returns the same numbers) that is: the sampler applications feeding two different
+    components are different applications -- different element of one draw, or provably different keys, all derived from the caller's key."""
+    cases = [("multicat.sample", "dims=(2,3)", lambda l, key: MultiCategorical([l[:2], l[2:]]).sample(key), jnp.zeros(5), 2),
+             ("multicat.sample_and_log_prob", "dims=(2,3)", lambda l, key: MultiCategorical([l[:2], l[2:]]).sample_and_log_prob(key)[0], jnp.zeros(5), 2),
+             ("multicat.sample", "flat,dims=(2,3,2)", lambda l, key: MultiCategorical(l, action_dims=(2, 3, 2)).sample(key), jnp.zeros(7), 3),
+             ("multicat.sample_and_log_prob", "flat,dims=(2,3,2)", lambda l, key: MultiCategorical(l, action_dims=(2, 3, 2)).sample_and_log_prob(key)[0], jnp.zeros(7), 3),
+             ("multicat.sample", "dims=(3,3)", lambda l, key: MultiCategorical([l[:3], l[3:]]).sample(key), jnp.zeros(6), 2),
+             ("bernoulli.sample", "n=3", lambda l, key: Bernoulli(logits=l).sample(key), jnp.zeros(3), 3),
+             ("mvn_diag.sample", "D=3", lambda l, key: MultivariateNormalDiag(l[:3], jnp.exp(l[3:])).sample(key), jnp.zeros(6), 3),
+             ("mvn_diag.sample_and_log_prob", "D=3", lambda l, key: MultivariateNormalDiag(l[:3], jnp.exp(l[3:])).sample_and_log_prob(key)[0], jnp.zeros(6), 3),
+             ("squashed_mvn_diag.sample", "D=2", lambda l, key: SquashedMultivariateNormalDiag(l[:2], jnp.exp(l[2:]), jnp.ones(2), -jnp.ones(2)).sample(key), jnp.zeros(4), 2),
+             ("squashed_mvn_diag.sample_and_log_prob", "D=2", lambda l, key: SquashedMultivariateNormalDiag(l[:2], jnp.exp(l[2:]), jnp.ones(2), -jnp.ones(2)).sample_and_log_prob(key)[0], jnp.zeros(4), 2)]
+    for name, tag, f, l0, C in cases:
+        def fn(l, key, f=f):
+            with stubs.prng_stubs():
+                return f(l, key)
+        tr = trace(fn, l0, jr.key(0), argnames=["l", "key"], label=f"{name} ({tag})")
+        ck.encoded(tr)
+        it = XRInterp() if name.startswith(("multicat", "bernoulli")) else Interp()
+        S = tr.symbols(it)
+        out = tr.run(it, S)
+        comps = list(next(iter(out.values())).reshape(-1)) if isinstance(out, dict) else list(out[0].reshape(-1))
+        atoms = [_rand_atoms(c) if not isconc(c) else {} for c in comps]
+        k0 = S["key"].reshape(-1)[0] if hasattr(S["key"], "reshape") else S["key"]
+        derived = all(any(x.get_id() == k0.get_id() for x in concrete.key_terms([k])) for a in atoms for (_, k) in a.values())
+        ck.fact(f"{name}.every_component_is_drawn_from_the_callers_key@{tag}", len(comps) == C and all(len(a) >= 1 for a in atoms) and derived,
+                f"{len(comps)} components; sampler applications per component {[sorted({d for d, _ in a.values()}) for a in atoms]}")
+        goals, allkeys = [], []
+        shared = False
+        for i in range(len(atoms)):
+            for j in range(i + 1, len(atoms)):
+                if set(atoms[i]) & set(atoms[j]):
+                    shared = True       # literally the same application feeds two components
+                for (d1, k1) in atoms[i].values():
+                    for (d2, k2) in atoms[j].values():
+                        if d1 == d2:
+                            goals.append(neg(k1 == k2))
+                            allkeys += [k1, k2]
+
+        def rp(res, tr=tr, l0=l0):
+            from jaxsmt.uf import GenericWorld
+            w = GenericWorld(seed=5)
+            concrete.run_real(tr, [jnp.asarray(np.linspace(-0.5, 0.5, l0.shape[0]), jnp.float32), jr.key(7)], w)
+            used = [(n, np.asarray(ops[0]).tobytes()) for n, ops, _ in w.calls if n.startswith("RAND_")]
+            return len(set(used)) < len(used), {"function": tr.label, "sampler_calls": [(n, np.frombuffer(k, np.uint32).tolist()) for n, k in used],
+                                                "observation": "two sampler calls of the real code received the same key: their draws are identical, not independent"}
+        if shared:
+            ck.fact(f"{name}.components_are_independent_draws@{tag}", False, "one and the same sampler application (same key, same element) feeds two components")
+        elif goals:
+            ck.prove(f"{name}.components_are_independent_draws@{tag}", concrete.key_axioms(allkeys), conj(goals), replay=rp)
+        else:
+            ck.fact(f"{name}.components_are_independent_draws@{tag}", True, "the components are different elements of one draw (independent by the sampler's contract)")
+
+
 # ===================================================================== Normal / MultivariateNormalDiag (REAL modulo log/exp)
 def normal_fn(loc, sc, v, key):
     with stubs.prng_stubs():
@@ -841,6 +916,8 @@ def main():
             sec_flat_eq_sequence(ck, dims)
     with ck.section("discrete samplers"):
         sec_discrete_select(ck, [2, 3] if not ck.thorough else [2, 3, 4, 6])
+    with ck.section("independent components"):
+        sec_independent_components(ck)
     with ck.section("normal"):
         sec_normal(ck)
     for D in ([2] if not ck.thorough else [2, 3, 4]):
